@@ -30,6 +30,14 @@ def limit_values(rng):
 
 def C05(tier, rng):
     cs = []
+    cs += sweep_enc_dns_cases()
+    # messages of exactly 65,533..65,538 octets (two shapes): the largest that fits, and the first ones that do not
+    for total in range(65533, 65539):
+        k = total - 12 - 1 - 10
+        cs.append(enc_case(msg_with([{'ty': 10, 'name': (), 'ttl': 0, 'cls': 1, 'f': [bytes(k)]}]), 'size%d' % total))
+        k2 = total - 12 - (13 + 4) - (1 + 10) - (2 + 10 + 4)
+        q = {'name': (b'example', b'org'), 'qtype': 1, 'qclass': 1}
+        cs.append(enc_case(msg_with([{'ty': 10, 'name': (), 'ttl': 0, 'cls': 1, 'f': [bytes(k2)]}, {'ty': 1, 'name': (b'example', b'org'), 'ttl': 0, 'cls': 1, 'f': [b'\1\2\3\4']}], qs=[q]), 'size%d' % total))
     for _ in range(sz(tier, 15000, 60000)):
         cs.append(enc_case(rand_msg(rng), 'valid'))
     for m in big_msgs(rng, tier) + limit_values(rng) + boundary_msgs(rng):
@@ -200,8 +208,17 @@ def hidden_pointer_cases(tier):
     NULL record); a later owner / RDATA / question name points into them. Whether a name's pointers count must not
     depend on where the name starts."""
     cs = []
+    for pad in (0, 64, 300, 5000):
+        cs += _hidden_pointer_cases(tier, pad)
+    return cs
+
+def _hidden_pointer_cases(tier, pad):
+    """`pad` octets of filler precede the structure inside the NULL RDATA (so that its offsets lie beyond 64, 256, 4096)"""
+    cs = []
     def msg(structure, entry_rel, where):
-        # NULL record (root owner) whose RDATA is `structure`; its first RDATA octet is at offset 12 + 11
+        # NULL record (root owner) whose RDATA is filler + `structure`; the structure starts at offset 12 + 11 + pad
+        structure = bytes(pad) + structure
+        entry_rel += pad
         base = 12 + 11
         null = b'\0' + b'\0\x0a\0\1\0\0\0\0' + len(structure).to_bytes(2, 'big') + structure
         p = (0xC000 | (base + entry_rel)).to_bytes(2, 'big')
@@ -212,8 +229,8 @@ def hidden_pointer_cases(tier):
         else:
             rec = b'\1o\0' + b'\0\x0f\0\1\0\0\0\0\0\6\0\1\1m' + p
         return b'\0\0\x84\0\0\0\0\2\0\0\0\0' + null + rec
-    base = 12 + 11
-    for k in list(range(1, 45)) + [100, 1000]:
+    base = 12 + 11 + pad
+    for k in (list(range(1, 45)) + [100, 1000] if pad == 0 else [1, 2, 16, 17, 18, 21, 41, 201]):
         # k pointers, each to the next, the last to a root octet (forward chain inside the RDATA)
         st = b''.join((0xC000 | (base + 2 * (i + 1))).to_bytes(2, 'big') for i in range(k)) + b'\0'
         for where in ('owner', 'rdata', 'mx'):
@@ -345,12 +362,19 @@ def C08(tier, rng):
     # from text, must still be inside the limits the encoder relies on
     cs += cookie_histories(2)
     cs += name_limit_api_cases()
+    cs += sweep_enc_dns_cases()
+    for n in (1, 62, 63, 64, 65, 66, 100, 255):
+        lab = b'l' * n
+        cs.append(Case('enc.name %s' % pname((lab, b'x')), 'label%d' % n))
+        cs.append(Case('api.label %s' % hx(lab), 'label%d' % n))
+        cs.append(enc_case(msg_with([{'ty': 2, 'name': (lab,), 'ttl': 0, 'cls': 1, 'f': [(b'ns', lab)]}]), 'label%d' % n))
     return cs
 
 # ---------------------------------------------------------------- C10
 
 def C10(tier, rng):
     cs = []
+    cs += sweep_enc_rr_cases(struct=True, embed=True)
     for f in all_flags():
         cs.append(Case('enc.flags %s' % pflags(f), 'flags'))
     for t in TYPES_KNOWN: cs.append(Case('enc.type %d' % t, 'code'))
@@ -462,6 +486,8 @@ def C11(tier, rng):
     for t in QTYPES: cs.append(Case('enc.qtype %d' % t, 'enc-code'))
     for t in CLASSES: cs.append(Case('enc.class %d' % t, 'enc-code'))
     for t in QCLASSES: cs.append(Case('enc.qclass %d' % t, 'enc-code'))
+    # record level: the type a decoded record reports (and writes back) is the one on the wire, for every type and form
+    cs += sweep_rr_wire_cases() + sweep_wire_cases('rt.dns', both_layouts=False)
     # the enumerated fields inside records: every 8-bit code of every in-record enum
     for v in range(256):
         cs.append(Case('dec.rr %s' % hx(raw_rr(44, 1, bytes([v, 1]) + b'fp')), 'sshfp-alg'))
@@ -500,7 +526,7 @@ def C12(tier, rng):
         for seq in itertools.product(calls, repeat=depth) if tier == 'thorough' and False else []:
             pass
     # exhaustive short histories over a reduced boundary set, random longer ones
-    small_calls = ['src:0', 'src:8', 'src:9', 'src:32', 'src:33', 'scope:0', 'scope:24', 'scope:32', 'scope:129',
+    small_calls = ['src:0', 'src:8', 'src:9', 'src:32', 'src:33', 'src:64', 'scope:0', 'scope:24', 'scope:32', 'scope:33', 'scope:64', 'scope:129',
                    'addr:1/0a000000', 'addr:1/0a000001', 'addr:1/ffffffff', 'addr:2/' + 'ff' * 16, 'addr:2/' + '20010db8' + '00' * 12]
     small_inits = ['1/0/0/00000000', '1/8/0/0a000000', '1/24/0/0a000100', '1/32/0/0a000001', '1/12/24/0a010000', '2/32/0/20010db8' + '00' * 12, '1/33/0/00000000', '1/8/0/0a000001']
     for init in small_inits:
@@ -560,7 +586,7 @@ def C12(tier, rng):
         for op in ('tag', 'psdn', 'isdn', 'sa'):
             cs.append(Case('api.%s %s' % (op, hx(bytes([b]))), op + '-byte'))
     # every public way to build a name meets the same limit (text with / without the final dot, appends)
-    cs += name_limit_api_cases()
+    cs += name_limit_api_cases() + label_length_octet_cases()
     return cs
 
 SPECIAL = [b'K', b'k', b'\xe2\x84\xaa', b'\xc4\xb0', b'i\xcc\x87', b'\xe1\xba\x9e', b'ss', b'A', b'a', b'Z', b'z', b'0', b'.', b'\x00', b'\xc3\x89', b'\xc3\xa9', b'[', b'{', b'@', b'`']
@@ -616,4 +642,5 @@ def C13(tier, rng):
             if tot >= 1: cs.append(Case('dec.dns %s' % hx(split_long_name_msg(pl, tot)), 'decode-limit-ptr'))
     for s in (b'', b'.', b'..', b'a..b', b'.a', b'a.', b'a..', b'\xe2\x84\xaa.example.'):
         cs.append(Case('text.parse %s' % hx(s), 'parse-edge'))
+    cs += label_length_octet_cases()
     return cs
